@@ -105,7 +105,11 @@ impl RdfPlanner {
             LogicalOperator::ClearGraph(clear) => self.plan_clear_graph(clear),
             LogicalOperator::CreateGraph(create) => self.plan_create_graph(create),
             LogicalOperator::DropGraph(drop_op) => self.plan_drop_graph(drop_op),
-            LogicalOperator::Empty => Err(Error::Internal("Empty plan".to_string())),
+            // The empty group pattern has exactly one solution, which binds nothing
+            LogicalOperator::Empty => Ok((
+                Box::new(grafeo_core::execution::operators::SingleRowOperator::new()),
+                Vec::new(),
+            )),
             _ => Err(Error::Internal(format!(
                 "Unsupported RDF operator: {:?}",
                 std::mem::discriminant(op)
